@@ -195,5 +195,11 @@ func init() {
 		for i := 0; i < n; i++ {
 			c11Case(o, root, rec, rng.Fork())
 		}
+		ggql.Sort = false
+		// whole requests parsed once and resolved several times over changing data and variables
+		for i := 0; i < n/12; i++ {
+			r := rng.Fork()
+			walkReuseCase(o, r, docOpts{collisions: false, abstract: r.Chance(35), maxDepth: 3}, 3)
+		}
 	}
 }
